@@ -28,8 +28,8 @@ ASSUMPTIONS = [
     "correspondence is bit-exact there (vertices, dyadic segment fractions) and within 1e-9 relative elsewhere",
     "segment lengths are parameters of the model (sent as the exact rationals numpy computed)",
     "np.isclose is modelled with rtol=1e-5, atol=1e-8 as exact decimal rationals (no generated joint lies near that boundary)",
-    "every successor / predecessor id names a lanelet of the network (the property quantifies over lanelet graphs); dangling ids "
-    "(AttributeError on None) are not modelled",
+    "the property quantifies over lanelet graphs whose successor / predecessor ids name lanelets of the network; networks with "
+    "dangling ids (AttributeError on None) are modelled (findSuccessorsR / findPredecessorsR) and compared, but excluded from the oracle",
     "the exhaustive stream enumerates every labelled digraph without self-successors on <= 3 (quick) / <= 4 (thorough) nodes",
 ]
 TRUSTED = ["C20: termination of the real route functions is observed through a call budget on LaneletNetwork.find_lanelet_by_id "
@@ -37,7 +37,7 @@ TRUSTED = ["C20: termination of the real route functions is observed through a c
 REQUIRED_BUCKETS = ["poly", "poly/s=0", "poly/s=length", "poly/s=vertex", "poly/s=interior", "poly/s=out-of-range",
                     "poly/repeated-vertex", "polyfloat", "merge/joined-exact", "merge/open", "merge/unlinked", "merge/swapped-args",
                     "net", "net/cyclic", "net/diamond", "net/range=path-length", "net/range-huge", "net/exhaustive",
-                    "net/pred-independent"]
+                    "net/pred-independent", "net/dangling-id"]
 WORKERS = {"quick": 1, "thorough": 8}
 
 DIRS = [(3, 4, 5), (4, 3, 5), (5, 12, 13), (12, 5, 13), (8, 15, 17), (15, 8, 17), (7, 24, 25), (20, 21, 29), (1, 0, 1), (0, 1, 1)]
@@ -346,8 +346,13 @@ def gen_net(ctx):
             ms.add(Fraction(r.randint(4, 12)))
         for m in sorted(ms):
             queries.append((st, m))
+    dangling = r.random() < 0.08
+    if dangling:   # some link targets name no lanelet (find_lanelet_by_id -> None): outside the property, correspondence only
+        for _ in range(r.randint(1, 2)):
+            r.choice([succ, pred])[r.choice(ids)].append(r.choice([97, 98, 99]))
     c = net_case(ids, succ, pred, lens, queries, shape)
     c["pred_independent"] = indep
+    c["dangling"] = dangling
     return c
 
 
@@ -735,7 +740,7 @@ def run_net(ctx, case):
 
     def cyc(v):
         color[v] = 1
-        for s in succ[v]:
+        for s in succ.get(v, []):
             if color.get(s) == 1 or (s not in color and cyc(s)):
                 return True
         color[v] = 2
@@ -743,6 +748,10 @@ def run_net(ctx, case):
 
     if any(v not in color and cyc(v) for v in ids):
         ctx.tag("net/cyclic")
+    dangling = any(t not in succ for nd in nodes for t in nd["succ"] + nd["pred"])
+    if dangling:
+        ctx.tag("net/dangling-id")
+        ctx.excluded += 1
     ctx.case(case)
     net, lans = build_net(nodes)
     lens = {i: Fraction(float(lans[i].distance[-1])) for i in ids}
@@ -760,7 +769,7 @@ def run_net(ctx, case):
             for fname, nbr in (("find_lanelet_successors_in_range", succ), ("find_lanelet_predecessors_in_range", pred)):
                 kk = (fname, st)
                 if kk not in npaths:
-                    npaths[kk] = count_simple_paths(nbr, st)
+                    npaths[kk] = count_simple_paths({k: [t for t in v if t in nbr] for k, v in nbr.items()}, st)
                 deg = max([len(v) for v in nbr.values()] + [1])
                 net.c20_calls = 0
                 net.c20_budget = 50 * (npaths[kk] + len(ids) + 1) * (deg + 2)
@@ -771,7 +780,8 @@ def run_net(ctx, case):
                     signal.setitimer(signal.ITIMER_REAL, 0)
                     out = [[int(v) for v in p] for p in out]
                     row.append({"ok": out})
-                    check_routes(ctx, fname, nbr, lens, st, mx, out, sub)
+                    if not dangling:
+                        check_routes(ctx, fname, nbr, lens, st, mx, out, sub)
                     acc_hit = any(sum((lens[v] for v in p[:j]), Fraction(0)) == mx for p in out for j in range(1, len(p) + 1))
                     if acc_hit:
                         ctx.tag("net/range=path-length")
@@ -785,6 +795,8 @@ def run_net(ctx, case):
                     signal.setitimer(signal.ITIMER_REAL, 0)
                     from common import err_class
                     row.append({"err": err_class(e)})
+                    if dangling and err_class(e) == "attr":
+                        continue   # find_lanelet_by_id returned None for a dangling id: outside the property's quantifier
                     ctx.fail(f"C20/{fname}/raises-{err_class(e)}", f"{fname}(start={st}, max_length={float(mx)}) raises {type(e).__name__}: {e}", sub)
             impl.append(row)
     finally:
